@@ -19,6 +19,7 @@ type OEv struct {
 	XA   Dec    `json:"xa"`
 	YA   Dec    `json:"ya"`
 	Panic string `json:"panic"`
+	Key   string `json:"key"`
 }
 
 // OMEv: all pairwise results over a small list of values (relational check of
@@ -34,7 +35,7 @@ type OMEv struct {
 func isNaNDec(d Dec) bool { return d.F == 2 || d.F == 3 }
 
 func mkO(xj, yj Dec) (ev OEv) {
-	ev = OEv{K: "o", X: xj, Y: yj, Cmp: 99}
+	ev = OEv{K: "o", X: xj, Y: yj, Cmp: 99, Key: "cmp|" + decStr(xj) + "|" + decStr(yj)}
 	defer func() {
 		if r := recover(); r != nil {
 			ev.Panic = "panic"
